@@ -315,7 +315,7 @@ theorem join_created_once_step (sp : Spec) (w : World) (ev : Event) (h : JoinRow
           · split
             · exact h
             · split
-              · exact h
+              · exact checkAffected_jru sp _ t h
               · split
                 · exact h
                 · exact JRU_setTask sp _ _ h
